@@ -329,6 +329,14 @@ def correspondence(rep, rows, component, nontrivial, opts=None, known=None, orac
         rep.evaluations += 1
         rep.traces += 1
         diffs = compare_outcome(impl, model, opts)
+        # hypothesis of `C02.hit_exact` (completeness of the inner binary search), monitored on the implementation's own ranges
+        for path, lcs in (impl.get("changes") or {}).items():
+            for lc in lcs:
+                rs = lc.get("ranges")
+                if rs and not (all(a <= b for a, b in rs) and all(rs[i][1] <= rs[i + 1][0] for i in range(len(rs) - 1))):
+                    diffs = diffs + [("changes.sorted-ranges", {path: lc}, "changed ranges of a line are non-inverted, ordered and disjoint")]
+                if rs:
+                    rep.count(f"{component}:ranges-sorted-checked")
         nt = nontrivial(case, impl, model)
         if nt:
             rep.nontrivial.add(hashlib.sha1(canon({k: v for k, v in case.items() if k != "meta"}).encode()).hexdigest())
